@@ -8,14 +8,32 @@ Open Scope N_scope.
 (* uuid4().hex contains no '/' *)
 Definition no_slash (u : str) : Prop := ~ In SLASH u.
 
-Lemma split_at_app : forall u t, no_slash u -> split_at SLASH (u ++ SLASH :: t) = Some (u, t).
+Lemma split_at_app_gen : forall c u t, ~ In c u -> split_at c (u ++ c :: t) = Some (u, t).
 Proof.
-  induction u as [|x u IH]; intros t H; simpl.
-  - reflexivity.
-  - destruct (x =? SLASH) eqn:E.
+  intros c. induction u as [|x u IH]; intros t H; simpl.
+  - rewrite N.eqb_refl. reflexivity.
+  - destruct (x =? c) eqn:E.
     + apply N.eqb_eq in E. exfalso. apply H. left. exact E.
     + rewrite IH; [reflexivity|]. intro Hin. apply H. right. exact Hin.
 Qed.
+
+Lemma split_at_app : forall u t, no_slash u -> split_at SLASH (u ++ SLASH :: t) = Some (u, t).
+Proof. intros u t H. apply split_at_app_gen. exact H. Qed.
+
+(* an address (request.remote.ip) contains no '|' *)
+Definition no_sep (s : str) : Prop := ~ In SEP s.
+
+Lemma app_sep_inj : forall a1 b1 a2 b2, no_sep a1 -> no_sep a2 ->
+  a1 ++ SEP :: b1 = a2 ++ SEP :: b2 -> a1 = a2 /\ b1 = b2.
+Proof.
+  intros a1 b1 a2 b2 H1 H2 E.
+  pose proof (split_at_app_gen SEP a1 b1 H1) as S1. rewrite E in S1.
+  rewrite (split_at_app_gen SEP a2 b2 H2) in S1. injection S1 as -> ->. split; reflexivity.
+Qed.
+
+(* the hash as an ideal fingerprint: the hypothesis under which "same fingerprint" means
+   "same (address, agent) pair" *)
+Definition injective (f : str -> str) : Prop := forall a b, f a = f b -> a = b.
 
 Lemma lookup_set_key : forall (s : store) k k' d,
   lookup k (set_key k' d s) = if str_eqb k k' then Some d else lookup k s.
@@ -204,10 +222,61 @@ Section P.
     destruct (serve_cases u r) as [E|[C _]]; [|exact C].
     rewrite E in H. destruct (new_id_unused u r _ F) as [_ N]. rewrite N in H. discriminate.
   Qed.
+  (* ---- the client as the (address, user agent) pair ---- *)
+
+  (* no fingerprint collision: with an injective hash, two requests have the same fingerprint
+     only if they come from the same address with the same user agent *)
+  Lemma fingerprint_pair : injective sha -> forall r1 r2,
+    no_sep (ip r1) -> no_sep (ip r2) -> who r1 = who r2 -> ip r1 = ip r2 /\ agent r1 = agent r2.
+  Proof.
+    intros I r1 r2 H1 H2 W. unfold Session.who in W. apply I in W.
+    exact (app_sep_inj _ _ _ _ H1 H2 W).
+  Qed.
+
+  Lemma same_sid_same_client : injective sha -> forall u1 r1 u2 r2,
+    no_slash u1 -> no_slash u2 -> no_sep (ip r1) -> no_sep (ip r2) ->
+    serve u1 r1 = serve u2 r2 -> ip r1 = ip r2 /\ agent r1 = agent r2.
+  Proof.
+    intros I u1 r1 u2 r2 U1 U2 S1 S2 E. apply (fingerprint_pair I); try assumption.
+    exact (same_sid_same_fingerprint u1 r1 u2 r2 U1 U2 E).
+  Qed.
+
+  Theorem session_binding_client : injective sha -> forall h1 r a u h2,
+    Forall (fun x : req * action * str => no_slash (snd x) /\ no_sep (ip (fst (fst x))))
+           (h1 ++ (r, a, u) :: h2) ->
+    exists d,
+      nth_error (run [] (h1 ++ (r, a, u) :: h2)) (length h1) = Some (serve u r, d) /\
+      forall v, d = Some v ->
+        exists r' u', In (r', Write v, u') h1 /\ serve u' r' = serve u r /\
+                      ip r' = ip r /\ agent r' = agent r.
+  Proof.
+    intros I h1 r a u h2 F.
+    assert (F' : Forall (fun x : req * action * str => no_slash (snd x)) (h1 ++ (r, a, u) :: h2)).
+    { rewrite Forall_forall in *. intros x Hx. exact (proj1 (F x Hx)). }
+    destruct (session_binding h1 r a u h2 F') as (d & Hn & Hd). exists d. split; [exact Hn|].
+    intros v Dv. destruct (Hd v Dv) as (r' & u' & Hin & E & W). exists r', u'.
+    split; [exact Hin|]. split; [exact E|].
+    rewrite Forall_forall in F.
+    assert (S' : no_sep (ip r')). { apply (F (r', Write v, u')). apply in_or_app. left. exact Hin. }
+    assert (S : no_sep (ip r)). { apply (F (r, a, u)). apply in_or_app. right. left. reflexivity. }
+    exact (fingerprint_pair I r' r S' S W).
+  Qed.
 End P.
+
 
 Lemma others_fresh : forall sha u r s,
   (forall c h, cookie r = Some c -> split_at SLASH c <> Some (h, who sha r)) ->
   serve sha u r = create sha u r /\
   (fresh u s -> lookup (create sha u r) s = None /\ fst (load (create sha u r) s) = None).
 Proof. intros sha u r s H. split; [apply others_get_new_id; exact H | apply new_id_unused]. Qed.
+
+(* the separator-less fingerprint sha1(ip ++ agent) of the unrepaired code: two different
+   (address, agent) pairs with one fingerprint, whatever the hash *)
+Lemma concat_fingerprint_collides :
+  exists ip1 a1 ip2 a2 : str, (ip1, a1) <> (ip2, a2) /\
+    forall sha : str -> str, sha (ip1 ++ a1) = sha (ip2 ++ a2).
+Proof.
+  exists [49; 46; 49], [50; 85], [49; 46; 49; 50], [85]. split.
+  - intro H. discriminate H.
+  - intro sha. reflexivity.
+Qed.
